@@ -12,6 +12,7 @@ DECIDED = ["R04a record table and on-disk headers move together (MUST over all s
            "R04b reads are bounds-checked against the record (DOM / cut on the validator's Ok edge)",
            "R04c optimize_storage ends with truncate then clear_free before commit",
            "R04c (cont.) optimize_storage has no early exit",
+           "R04c (cont.) the whole compaction pass is one storage transaction",
            "R04d left-over free regions always get a header (guard compares with zero or two sizes)"]
 UNDECIDED = ["free-list arithmetic (take_free, take_free_after, mark_free_compact, enlarge_in_place remainders)",
              "byte equality of values after arbitrary histories"]
@@ -22,6 +23,49 @@ TABLE_MUTATORS = {REC + m for m in ("new_record", "set_pos", "set_size", "remove
 WRAPPERS = {S + "new_record": "thin wrapper of StorageRecords::new_record", S + "remove_index": "thin wrapper of StorageRecords::remove_index"}
 HEADER_WRITERS = {S + "write_record", "agdb::storage::StorageData::write", S + "truncate", S + "free_a_region",
                   S + "update_record"}
+
+
+def optimize_rule(ctx):
+    """R04c (shared with C32): the compaction pass is one storage transaction that ends with truncate + clear_free."""
+    fa = ctx.facts
+    b = ctx.anchor("R04c", S + "optimize_storage")
+    if b:
+        opens = [i for i, t in cfg.calls(b) if cfg.callee_decl(t) in common.OPEN_DECLS]
+        closes = [i for i, t in cfg.calls(b) if cfg.callee_decl(t) in common.CLOSE_DECLS]
+        tr = cfg.call_blocks(b, [S + "truncate"])
+        cf = cfg.call_blocks(b, [REC + "clear_free"])
+        ok = bool(opens and closes and tr and cf)
+        if ok:
+            ok = (cfg.find_path(b, opens, closes, avoid=tr, leave_start=True) is None and
+                  cfg.find_path(b, opens, closes, avoid=cf, leave_start=True) is None and
+                  cfg.find_path(b, opens, cf, avoid=tr, leave_start=True) is None)
+        ctx.ob("R04c", "optimize_storage", ok,
+               "bracket: ... truncate -> clear_free -> commit on every path" if ok else
+               "optimize_storage can commit without truncating the file and clearing the free list", b.where)
+        # no early exit: every success path from the ENTRY performs the compaction pass.  (An early return under a
+        # "nothing to reclaim" test is how unused space survives: free_size() counts data bytes only, not the
+        # 16-byte headers of empty free regions.  A provably correct early exit would have to be added to this rule.)
+        okb, errb, unk = cfg.ret_class_blocks(b)
+        targets = (okb + unk) or cfg.return_blocks(b)
+        p1 = cfg.find_path(b, [0], targets, avoid=tr) if tr else [0]
+        p2 = cfg.find_path(b, [0], targets, avoid=cf) if cf else [0]
+        ctx.ob("R04c", "optimize_storage:no-early-exit", p1 is None and p2 is None,
+               "every successful optimize_storage truncates the file and clears the free list" if (p1 is None and p2 is None)
+               else "optimize_storage can return successfully without compacting (%s): unused space may remain after "
+               "defragmentation" % cfg.path_str(b, p1 or p2), b.where)
+        # one bracket around the whole pass: no commit inside the move loop (a failed write must undo every move made so
+        # far: a half-packed file has stale headers between the packed and the unpacked part and cannot be scanned)
+        loops = cfg.sccs(b)
+        in_loop = [i for i in opens + closes if any(i in c for c in loops)]
+        moves = cfg.call_blocks(b, [S + "shrink_index"])
+        ok1 = bool(moves) and len(opens) == 1 and not in_loop and \
+            cfg.find_path(b, [0], moves, avoid=opens) is None and \
+            all(cfg.find_path(b, closes, [m], leave_start=True) is None for m in moves)
+        ctx.ob("R04c", "optimize_storage:single-transaction", ok1,
+               "all record moves happen inside the one transaction opened at the start" if ok1 else
+               "optimize_storage commits between record moves (transaction calls inside the loop: %s, opens: %d): a write "
+               "failure in the middle leaves the moves made so far durable and the file half-packed" % (
+                   [b.loc(i) for i in in_loop], len(opens)), b.where)
 
 
 def run(ctx):
@@ -109,29 +153,5 @@ def run(ctx):
                        fb.loc(i_sw), key="%s|R04d|%s|left-over-header-guard" % (ctx.pid, common.norm(fb.npath)))
     ctx.floor("R04d", "guards of left-over free headers", n_left, 3)
 
-    b = ctx.anchor("R04c", S + "optimize_storage")
-    if b:
-        opens = [i for i, t in cfg.calls(b) if cfg.callee_decl(t) in common.OPEN_DECLS]
-        closes = [i for i, t in cfg.calls(b) if cfg.callee_decl(t) in common.CLOSE_DECLS]
-        tr = cfg.call_blocks(b, [S + "truncate"])
-        cf = cfg.call_blocks(b, [REC + "clear_free"])
-        ok = bool(opens and closes and tr and cf)
-        if ok:
-            ok = (cfg.find_path(b, opens, closes, avoid=tr, leave_start=True) is None and
-                  cfg.find_path(b, opens, closes, avoid=cf, leave_start=True) is None and
-                  cfg.find_path(b, opens, cf, avoid=tr, leave_start=True) is None)
-        ctx.ob("R04c", "optimize_storage", ok,
-               "bracket: ... truncate -> clear_free -> commit on every path" if ok else
-               "optimize_storage can commit without truncating the file and clearing the free list", b.where)
-        # no early exit: every success path from the ENTRY performs the compaction pass.  (An early return under a
-        # "nothing to reclaim" test is how unused space survives: free_size() counts data bytes only, not the
-        # 16-byte headers of empty free regions.  A provably correct early exit would have to be added to this rule.)
-        okb, errb, unk = cfg.ret_class_blocks(b)
-        targets = (okb + unk) or cfg.return_blocks(b)
-        p1 = cfg.find_path(b, [0], targets, avoid=tr) if tr else [0]
-        p2 = cfg.find_path(b, [0], targets, avoid=cf) if cf else [0]
-        ctx.ob("R04c", "optimize_storage:no-early-exit", p1 is None and p2 is None,
-               "every successful optimize_storage truncates the file and clears the free list" if (p1 is None and p2 is None)
-               else "optimize_storage can return successfully without compacting (%s): unused space may remain after "
-               "defragmentation" % cfg.path_str(b, p1 or p2), b.where)
+    optimize_rule(ctx)
     return 0
